@@ -1,5 +1,16 @@
-(** C11 — proofs over Directive/Model.v *)
-From TV Require Import Levels.Model Levels.Proofs Directive.Model.
+(** C11 — proofs over Directive/Model.v.  This file gathers the proof files:
+      Order.v     lawful comparisons, keyed sorted insertion with replace-on-equal
+      Static.v    static sets: sorted, last duplicate wins, most specific match, prefix semantics, would_enable
+      Text.v      FromStr / Display of StaticDirective and Targets: splitting lemmas, the round trip, the level maximum
+      Dyn.v       the order on EnvFilter directives; Ord vs PartialEq (F22); the maximum bounds every level
+      Agree.v     Targets = EnvFilter on the common grammar (F23)
+      Scope.v     the per-thread scope stack refines "entered, not yet exited"
+      ScopeSpec.v the span-scoped clause against the property text (F24, F12), Debug literals (F25)
+      EnvText.v   Display / parse of one EnvFilter directive, and of filters without field-name-only directives
+      Numerals.v  integers and booleans print to a text that reads back as the same value matcher
+      Headline.v  corollaries and examples *)
+From TV Require Export Levels.Model Levels.Proofs Directive.Model Directive.Order Directive.Static Directive.Text
+  Directive.Dyn Directive.Agree Directive.EnvText Directive.Numerals Directive.Scope Directive.ScopeSpec Directive.Headline.
 From Coq Require Import Lia Permutation Sorted.
 Local Open Scope N_scope.
 
